@@ -5,7 +5,7 @@
    the session ends with that status.  Deeper fields (inside a value array or a metadata entry) are
    composed by the correspondence run: every field of every generated file.
    Statements only; proofs in StatusFacts.v and CorruptFacts.v. *)
-From Sbdf Require Import Imp ImpCall Gen.Prog ImpFacts ImpFacts7 ImpFactsFrame ImpFactsCmp ImpFactsHeap ImpFactsRead.
+From Sbdf Require Import Imp ImpCall Gen.Prog ImpBase ImpFactsFrame ImpFactsRead.
 From Coq Require Import String List.
 From Sbdf Require Import File PrimFacts VaFacts SliceFacts TmFacts FileFacts StatusFacts CorruptFacts LeafTie.
 From Sbdf.Gen Require Leaf.
